@@ -290,6 +290,7 @@ def repeatStr (cap : Nat) (s : List Char) (n : Int) : Except Err SVal :=
   else if n = 1 then .ok (.str s)
   else if (s.length : Int) > ssizeMax / n then .error .overflow   -- repeated string is too long
   else if s.length * n.toNat > cap then .error .memory
+  else if s.isEmpty then .ok (.str [])                           -- PyUnicode_New(0, ..)
   else .ok (.str (replicateStr s n.toNat))
 
 /-! ### truth value and python equality -/
